@@ -29,7 +29,7 @@ func completeComment(raw string, atEnd bool) bool {
 		i := strings.IndexByte(raw, '\n')
 		return i == len(raw)-1 || (i < 0 && atEnd)
 	case strings.HasPrefix(raw, "/*"):
-		return len(raw) >= 3 && strings.HasSuffix(raw, "*/")
+		return len(raw) >= 4 && strings.HasSuffix(raw, "*/")
 	}
 	return false
 }
